@@ -9,15 +9,15 @@
   * `instEq_fieldwise` — `==` is exactly field-wise `==` of the values read back;
   * `instEq_refl` (unconditional), `instEq_symm`, `instEq_trans` on instances whose values satisfy
     the representation invariants `okVal` (Lemmas/EqLemmas.lean shows they are necessary);
-  * `copy_eq`, `deepcopy_eq`, `pickle_eq_partial` (+ hash where it holds);
-  * `run2_frame`, `deepcopy_independent`, `unpickled_independent` — operations on one instance of a
-    pair never affect the other, for every interleaved history.
+  * `copy_eq`, `deepcopy_eq`, `pickle_eq` (+ hash where it holds);
+  * `run2_frame`, `deepcopy_independent`, `unpickled_frame`, `unpickled_independent` — operations on
+    one instance of a pair never affect the other, for every interleaved history, and the unpickled
+    copy behaves exactly like the instance it was pickled from (`pickle_state`,
+    `unpickled_immutable_protected`; since the repo fix 4ede29b).
   False of the code today, with kernel-checked counterexamples that the harness replays on the real
   code as known findings: `a == b → hash(a) == hash(b)` (`eq_hash_statement_false`, six
-  `eq_hash_counterexample_*`), pickle round trip with additional properties
-  (`pickle_counterexample_extras`), hash of a deep copy with a re-ordered set
-  (`deepcopy_hash_counterexample`), an unpickled ImmutableStructure accepts assignment
-  (`unpickled_immutable_counterexample`).  `eq_hash_partial` proves the implication on the region
+  `eq_hash_counterexample_*`), hash of a deep / unpickled copy with a re-ordered set
+  (`deepcopy_hash_counterexample`, `pickle_hash_counterexample`).  `eq_hash_partial` proves the implication on the region
   that excludes exactly those spellings.
 -/
 import TypedpyModel.Lemmas.EqLemmas
@@ -248,41 +248,78 @@ theorem deepcopy_independent (tbl : List MethodRec) (O : Oracles) (c : ClassOpts
   · have := congrArg Prod.fst h.1; simpa [runI] using this
   · have := congrArg Prod.snd h.1; simpa using this
 
-/-- the same for an unpickled copy -/
-theorem unpickled_independent (tbl : List MethodRec) (O : Oracles) (c : ClassOpts)
-    (fields : List (String × FieldDecl)) (T : ClassTbl) (S : SetOrder) (x : Inst) (ops : List Op) :
-    let r := run2 tbl O c fields (x, pickleI T S x) (ops.map (fun op => (Side.copy, op)))
+/-- the same frame property for an unpickled copy, for every iteration order of its rebuilt sets -/
+theorem unpickled_frame (tbl : List MethodRec) (O : Oracles) (c : ClassOpts)
+    (fields : List (String × FieldDecl)) (S : SetOrder) (x : Inst) (ops : List Op) :
+    let r := run2 tbl O c fields (x, pickleI S x) (ops.map (fun op => (Side.copy, op)))
     r.1.1 = x
-    ∧ r.1.2 = (runI tbl O c fields (pickleI T S x) ops).1
-    ∧ sideOf .copy r.2 = (runI tbl O c fields (pickleI T S x) ops).2 := by
+    ∧ r.1.2 = (runI tbl O c fields (pickleI S x) ops).1
+    ∧ sideOf .copy r.2 = (runI tbl O c fields (pickleI S x) ops).2 := by
   intro r
-  have h := run2_frame tbl O c fields (ops.map (fun op => (Side.copy, op))) (x, pickleI T S x)
+  have h := run2_frame tbl O c fields (ops.map (fun op => (Side.copy, op))) (x, pickleI S x)
   rw [(sideOf_map_copy ops).1, (sideOf_map_copy ops).2] at h
   refine ⟨?_, ?_, h.2.2⟩
   · have := congrArg Prod.fst h.1; simpa [runI] using this
   · have := congrArg Prod.snd h.1; simpa using this
 
-/-! ### the unpickled copy is not `_instantiated` -/
+/-- the pickle round trip of a constructed instance (`_instantiated`, empty `_none_fields`) whose
+    rebuilt sets come out in the iteration order they had gives back the very same state: fields,
+    additional properties and the bookkeeping entries (since 4ede29b) -/
+theorem pickle_state (S : SetOrder) (x : Inst) (hi : x.instantiated = true) (hn : x.nones = [])
+    (hfix : rebuildAttrs S x.attrs = x.attrs) : pickleI S x = x := by
+  cases x with
+  | mk cls attrs inst nones =>
+    simp only at hi hn hfix
+    simp only [pickleI, hfix, hi, hn]
+
+/-- **C11 (unpickled copy independent, behaves like a fresh equal instance)**: whatever history is
+    applied to the unpickled copy, the original is unchanged, and the copy goes through exactly the
+    states and outcomes that the same history produces on the instance it was pickled from —
+    immutability and every validation included.  (`hfix`: the rebuilt sets iterate as before, e.g.
+    `S = id`, see `rebuildAttrs_id`; for other orders `unpickled_frame` and `pickle_eq` apply.) -/
+theorem unpickled_independent (tbl : List MethodRec) (O : Oracles) (c : ClassOpts)
+    (fields : List (String × FieldDecl)) (S : SetOrder) (x : Inst) (ops : List Op)
+    (hi : x.instantiated = true) (hn : x.nones = []) (hfix : rebuildAttrs S x.attrs = x.attrs) :
+    let r := run2 tbl O c fields (x, pickleI S x) (ops.map (fun op => (Side.copy, op)))
+    r.1.1 = x
+    ∧ r.1.2 = (runI tbl O c fields x ops).1
+    ∧ sideOf .copy r.2 = (runI tbl O c fields x ops).2 := by
+  have h := unpickled_frame tbl O c fields S x ops
+  rw [pickle_state S x hi hn hfix] at h ⊢
+  exact h
+
+/-! ### the unpickled copy is `_instantiated` again (fixed by 4ede29b) -/
 
 def exO : Oracles := { reMatch := fun _ _ => true }
 def exImm : ClassOpts := { name := "I", required := ["x"], addl := false, immutable := true, accepts := ["I"] }
 def exImmFields : List (String × FieldDecl) := [("x", .integer {})]
 def exImmInst : Inst := { cls := "I", attrs := [("x", .int 1)] }
 
-/-- finding `unpickled:immutable-setattr-unprotected`: assignment is refused on the instance and
-    accepted on its unpickled copy -/
-theorem unpickled_immutable_counterexample :
-    (stepI Generated.wrappers exO exImm exImmFields exImmInst (.setattr "x" (.int 2))).2 = .err .valueErr
-    ∧ (stepI Generated.wrappers exO exImm exImmFields (pickleI [("I", ["x"])] id exImmInst) (.setattr "x" (.int 2))).2 = .ok
-    ∧ instEq [] exImmInst (pickleI [("I", ["x"])] id exImmInst) = true
-    ∧ instEq [] exImmInst
-        (stepI Generated.wrappers exO exImm exImmFields (pickleI [("I", ["x"])] id exImmInst) (.setattr "x" (.int 2))).1
-        = false := by decide
+/-- an immutable instance stays immutable through a pickle round trip: for every class, every
+    instance and every rebuilt-set order, assignment to the unpickled copy of an
+    ImmutableStructure is refused and leaves it unchanged -/
+theorem unpickled_immutable_protected (tbl : List MethodRec) (O : Oracles) (c : ClassOpts)
+    (fields : List (String × FieldDecl)) (S : SetOrder) (x : Inst) (f : String) (v : PyVal)
+    (hc : c.immutable = true) :
+    stepI tbl O c fields (pickleI S x) (.setattr f v) = (pickleI S x, .err .valueErr) := by
+  simp only [stepI, pickleI, hc, Bool.and_self, setattrStep, if_true]
 
-/-- finding `pickle-not-eq:extra-attrs`: `__getstate__` drops additional properties -/
-theorem pickle_counterexample_extras :
-    instEq [] { cls := "A", attrs := [("x", .int 1), ("extra", .int 5)] }
-      (pickleI [("A", ["x"])] id { cls := "A", attrs := [("x", .int 1), ("extra", .int 5)] }) = false := by
+/-- non-vacuity / former finding `unpickled:immutable-setattr-unprotected`: assignment is refused
+    on the instance and on its unpickled copy alike, and the copy `==` the original -/
+theorem unpickled_immutable_example :
+    (stepI Generated.wrappers exO exImm exImmFields exImmInst (.setattr "x" (.int 2))).2 = .err .valueErr
+    ∧ (stepI Generated.wrappers exO exImm exImmFields (pickleI id exImmInst) (.setattr "x" (.int 2))).2
+        = .err .valueErr
+    ∧ instEq [] exImmInst (pickleI id exImmInst) = true := by decide
+
+/-- former finding `pickle-not-eq:extra-attrs`: additional properties (also inside a nested
+    Structure, also `None`-valued ones) survive the round trip; the copy `==` the original and
+    prints alike -/
+theorem pickle_keeps_extras_example :
+    instEq [] { cls := "A", attrs := [("x", .int 1), ("extra", .int 5), ("n", .inst "B" [("y", .none), ("e", .str "s")])] }
+      (pickleI id { cls := "A", attrs := [("x", .int 1), ("extra", .int 5), ("n", .inst "B" [("y", .none), ("e", .str "s")])] }) = true
+    ∧ (hashKey exR { cls := "A", attrs := [("x", .int 1), ("extra", .int 5), ("n", .inst "B" [("y", .none), ("e", .str "s")])] }
+        == hashKey exR (pickleI id { cls := "A", attrs := [("x", .int 1), ("extra", .int 5), ("n", .inst "B" [("y", .none), ("e", .str "s")])] })) = true := by
   decide
 
 /-- finding `deepcopy-hash-differs:set-order` / `pickle-hash-differs:set-order`: a rebuilt set may
@@ -374,9 +411,9 @@ theorem deepcopy_eq (S : SetOrder) (hS : MemPreserving S) (c : ClassOpts) (d : A
       · rw [hi] at h; cases h
     simp only [Bool.false_eq_true, if_false, hign', Bool.and_false, Bool.false_and, Bool.not_false,
       filter_all_true]
-    rw [pickleAttrs_eq_map [] S none x.attrs (fun _ _ => rfl)]
-    exact instEq_map d (pickleV [] S) x x.instantiated x.nones
-      (fun p _ => pyEq_pickleV [] S hS p.2 (keptV_nil p.2)) (namesEq_refl _)
+    rw [rebuildAttrs_eq_map]
+    exact instEq_map d (rebuildV S) x x.instantiated x.nones
+      (fun p _ => pyEq_rebuildV S hS p.2) (namesEq_refl _)
 
 /-- … and it prints / hashes like `x` when the rebuilt sets keep their iteration order
     (otherwise not: `deepcopy_hash_counterexample`) -/
@@ -394,25 +431,31 @@ theorem deepcopy_hash_partial (R : Render) (c : ClassOpts) (x : Inst)
         · rw [hi] at h; cases h
       simp only [Bool.false_eq_true, if_false, hign', Bool.and_false, Bool.false_and, Bool.not_false,
         filter_all_true]
-      rw [pickleAttrs_id [] none x.attrs ((keptAttrs_iff _ _ _).2 (fun p _ => ⟨rfl, keptV_nil p.2⟩))]
+      rw [rebuildAttrs_id]
   exact ⟨h, by rw [h]⟩
 
-/-- **C11 (pickle, partial)**: the unpickled copy `==` the original when no Structure in it carries
-    an additional property (`keptAttrs`; otherwise not: `pickle_counterexample_extras`) -/
-theorem pickle_eq_partial (T : ClassTbl) (S : SetOrder) (hS : MemPreserving S) (d : Attrs) (x : Inst)
-    (hk : keptAttrs T (lookup x.cls T) x.attrs = true) (hn : x.nones = []) :
-    instEq d x (pickleI T S x) = true := by
+/-- **C11 (pickle)**: the unpickled copy `==` the original — additional properties at every level
+    included — for every iteration order the rebuilt sets come out in.  (`_none_fields` is not part
+    of the pickled state: the copy's is empty, `hn`.) -/
+theorem pickle_eq (S : SetOrder) (hS : MemPreserving S) (d : Attrs) (x : Inst) (hn : x.nones = []) :
+    instEq d x (pickleI S x) = true := by
   unfold pickleI
-  have hk' := (keptAttrs_iff _ _ _).1 hk
-  rw [pickleAttrs_eq_map T S _ x.attrs (fun p hp => (hk' p hp).1)]
-  exact instEq_map d (pickleV T S) x false []
-    (fun p hp => pyEq_pickleV T S hS p.2 (hk' p hp).2) (by rw [hn]; rfl)
+  rw [rebuildAttrs_eq_map]
+  exact instEq_map d (rebuildV S) x true [] (fun p _ => pyEq_rebuildV S hS p.2) (by rw [hn]; rfl)
 
-/-- … and prints / hashes like it when the rebuilt sets keep their iteration order -/
-theorem pickle_hash_partial (R : Render) (T : ClassTbl) (x : Inst)
-    (hk : keptAttrs T (lookup x.cls T) x.attrs = true) (hn : x.nones = []) :
-    hashKey R (pickleI T id x) = hashKey R x := by
+/-- … and prints / hashes like it when the rebuilt sets keep their iteration order (otherwise not:
+    `deepcopy_hash_counterexample` applies to pickle verbatim, finding `pickle-hash-differs:set-order`) -/
+theorem pickle_hash_partial (R : Render) (x : Inst) (hn : x.nones = []) :
+    hashKey R (pickleI id x) = hashKey R x := by
   unfold pickleI hashKey
-  simp only [pickleAttrs_id T _ x.attrs hk, hn]
+  simp only [rebuildAttrs_id, hn]
+
+/-- finding `pickle-hash-differs:set-order`, kernel-checked for pickle itself -/
+theorem pickle_hash_counterexample :
+    instEq [] { cls := "A", attrs := [("s", .set false [.str "a", .int 3])] }
+      (pickleI List.reverse { cls := "A", attrs := [("s", .set false [.str "a", .int 3])] }) = true
+    ∧ (hashKey exR { cls := "A", attrs := [("s", .set false [.str "a", .int 3])] }
+        == hashKey exR (pickleI List.reverse { cls := "A", attrs := [("s", .set false [.str "a", .int 3])] })) = false := by
+  decide
 
 end Typedpy.C11
